@@ -1,6 +1,6 @@
 (* C11 — --ansi strips escape sequences only and colours the right characters.
    Statements only; proofs live in proofs/AnsiProofs.v. *)
-From Fzf Require Import Prelude AnsiSpec AnsiModel AnsiProofs.
+From Fzf Require Import Prelude AnsiSpec AnsiModel AnsiProofs AnsiSubProofs.
 Open Scope Z_scope.
 
 (* The hand-written scanner (fast pre-scan, matchControlSequence, matchOperatingSystemCommand, backspace
@@ -45,6 +45,27 @@ Theorem sgr_eq : forall dss a l u prev,
 Proof. exact sgr_eq_proof. Qed.
 Print Assumptions sgr_eq.
 
+(* The ':' forms of the extended colours (ITU T.416 sub-parameters: 38:5:n, 38:2:r:g:b and, with the omitted
+   colour-space identifier, 38:2::r:g:b; 48 likewise), alone or after plain parameters of the documented domain:
+   interpretCode computes what the reference reading computes - the omitted slot is passed over, the colour is
+   rgb(r,g,b) exactly as for 38;2;r;g;b - from any carried state, line background and hyperlink untouched. *)
+Theorem sgr_sub_eq : forall dss tl a l u prev,
+  Forall param_ok dss -> sgr_wf (map dec_val dss) = true ->
+  Forall sub_ok tl -> xcol_wf (map sub_val tl) = true ->
+  (prev = Some (enc_state a l u) \/ (prev = None /\ a = sgr_reset /\ l = -1 /\ u = None)) ->
+  interpret_code (render_sgr_x dss (Some tl)) prev
+  = Ok (enc_state (sgr_xapply (mkX (map Some (map dec_val dss)) (Some (map sub_val tl))) a) l u, false).
+Proof. exact sgr_sub_eq_proof. Qed.
+Print Assumptions sgr_sub_eq.
+
+(* Every parameter omitted (ESC[m, ESC[;m, ESC[;;m, ...): each has its default value 0, the result is a reset. *)
+Theorem sgr_omitted_eq : forall k a l u prev,
+  (prev = Some (enc_state a l u) \/ (prev = None /\ a = sgr_reset /\ l = -1 /\ u = None)) ->
+  interpret_code (render_sgr_x (repeat [] (S k)) None) prev
+  = Ok (enc_state (sgr_xapply (mkX (repeat None (S k)) None) a) l u, false).
+Proof. exact sgr_omitted_eq_proof. Qed.
+Print Assumptions sgr_omitted_eq.
+
 (* Limit of spans_wf, stated so that it cannot be over-read: characters are counted piece by piece (kept_runes).
    For text pieces that are whole UTF-8 this is the character count of the stripped text; when an escape sequence
    splits one multi-byte character the two halves count as two, and a span can end beyond the (one-character) text. *)
@@ -88,3 +109,19 @@ Example c11_sgr_nonvacuous :
   Forall param_ok dss /\ sgr_wf (map dec_val dss) = true /\
   sgr_apply (map dec_val dss) sgr_reset = mkSgr (CRGB 1 2 3) (CIdx 7) (mkAttrs true false false false false false false).
 Proof. split; [repeat constructor; reflexivity|split; reflexivity]. Qed.
+
+(* non-vacuity of sgr_sub_eq and sgr_omitted_eq: ESC[1;38:2::10:20:30m from a carried red-on-default state;  ESC[;m *)
+Example c11_sgr_sub_nonvacuous :
+  let dss := [[49]] in let tl := [[51;56]; [50]; []; [49;48]; [50;48]; [51;48]] in
+  Forall param_ok dss /\ sgr_wf (map dec_val dss) = true /\ Forall sub_ok tl /\ xcol_wf (map sub_val tl) = true /\
+  render_sgr_x dss (Some tl) = [27;91;49;59;51;56;58;50;58;58;49;48;58;50;48;58;51;48;109] /\
+  sgr_xapply (mkX (map Some (map dec_val dss)) (Some (map sub_val tl))) (mkSgr (CIdx 1) CDefault no_attrs)
+  = mkSgr (CRGB 10 20 30) CDefault (mkAttrs true false false false false false false) /\
+  interpret_code (render_sgr_x dss (Some tl)) (Some (mkA 1 (-1) 0 (-1) None)) = Ok (mkA 17437726 (-1) 1 (-1) None, false) /\
+  render_sgr_x (repeat [] 2) None = [27;91;59;109] /\
+  sgr_xapply (mkX (repeat None 2) None) (mkSgr (CIdx 1) CDefault no_attrs) = sgr_reset.
+Proof.
+  split; [repeat constructor; reflexivity|]. split; [reflexivity|].
+  split; [repeat constructor; (now left) || (right; split; reflexivity)|].
+  repeat split; reflexivity.
+Qed.
